@@ -59,10 +59,10 @@ def batches(ctx):
     cases = []
     for b in base:
         c = {"spe": 0, "dup": rng.randint(0, 5), "hgt": R.INF if rng.random() < 0.5 else rng.randint(0, 5), "floss": rng.randint(0, 5), "sloss": 1}
-        cases.append({**b, "costs": c})
+        cases.append({**b, "costs": c, "blank": rng.random() < 0.3})   # 30%: ancestors carry no names
 
     def impl(c):
-        B = R.Built(c["S"], c["O"], c["costs"])
+        B = R.Built(c["S"], c["O"], c["costs"], blank_internal=c.get("blank", False))
         out = reconcile_lca(B.input)
         return {"sol": B.canon(out), "cost": R.ext_of(out.cost())}
 
@@ -103,6 +103,54 @@ def batches(ctx):
         enc_out=lambda c, r: cpair(R.enc_rtree(r["sol"]), R.enc_ext(r["cost"])),
         oracle=oracle, nontrivial=nontrivial, exhaustive=False, shard=1500,
         describe="all species/object shapes up to the tier's size with every leaf assignment, random inputs up to 9 object / 8 species leaves; dup, floss in 0..5",
+    )
+
+    # inputs given in the documented dictionary form, leaf species inferred from the <species>_<id> names;
+    # ancestral object nodes are unnamed or carry arbitrary names, some of which look like leaf names
+    from superrec2.model.reconciliation import ReconciliationInput
+    letters = "ABCDEFGHIJKLMNOP"
+    dcases = []
+    for b in rng.sample(base, min(len(base), 700 if ctx.quick() else 6000)):
+        sl = R.shape_leaves(b["S"])
+        spname = {p: letters[i] for i, p in enumerate(sl)}
+        k = [0]
+
+        def onw(o):
+            if isinstance(o, dict):
+                k[0] += 1
+                return f"{spname[o['sp']]}_{k[0]}"
+            k[0] += 1
+            style = rng.random()
+            name = "" if style < 0.4 else (f"N{k[0]}" if style < 0.7 else f"{rng.choice(list(spname.values()))}_h{k[0]}")
+            return f"({onw(o[0])},{onw(o[1])}){name}"
+
+        def snw(s, p=""):
+            if s == 0:
+                return spname[p]
+            nm = "" if rng.random() < 0.5 else "S" + (p or "r")
+            return f"({snw(s[0], p + '0')},{snw(s[1], p + '1')}){nm}"
+        dcases.append({"S": b["S"], "O": b["O"], "object_tree": onw(b["O"]) + ";", "species_tree": snw(b["S"]) + ";"})
+
+    def impl_dict(c):
+        inp = ReconciliationInput.from_dict({"object_tree": c["object_tree"], "species_tree": c["species_tree"]})
+        out = reconcile_lca(inp)
+        by_id = R.node_paths(inp.species_lca.tree)
+
+        def go(n):
+            s = by_id[out.object_species[n]]
+            return s if n.is_leaf() else [s, go(n.children[0]), go(n.children[1])]
+        return {"sol": go(inp.object_tree), "cost": R.ext_of(out.cost())}
+
+    yield Batch(
+        name="lca_from_dict", header=HEADER,
+        run="fun '(St, Ot, c) => let r := lca_rec Ot in (r, cost c Ot r)",
+        eqb="fun a b => rtree_eqb (fst a) (fst b) && ext_eqb (snd a) (snd b)",
+        ty_in="stree * otree * costs", ty_out="rtree * ext",
+        cases=dcases, impl=impl_dict,
+        enc_in=lambda c: R.cpair(R.enc_stree(c["S"]), R.enc_otree(c["O"]), R.enc_costs(R.default_costs())),
+        enc_out=lambda c, r: cpair(R.enc_rtree(r["sol"]), R.enc_ext(r["cost"])),
+        oracle=lambda c, r: oracle({**c, "costs": R.default_costs()}, r), nontrivial=nontrivial, exhaustive=False, shard=1500,
+        describe="inputs built through ReconciliationInput.from_dict from Newick strings (leaf species inferred from names; ancestors unnamed, neutrally named or named like leaves), default costs",
     )
 
     # reconcile_thl with transfers forbidden returns exactly {lca_rec} when floss > 0
